@@ -26,6 +26,8 @@ class Burst(object):
         self.at = None
         self.at_sector_select = False
         self.at_mac_write = False
+        self.at_auth_part2 = False
+        self.passed_after = 0      # exchanges let through after the burst began
 
     def __call__(self, sim, cmd):
         sx = self.sx
@@ -42,6 +44,10 @@ class Burst(object):
                 self.at_mac_write = bool(
                     getattr(sim, 'lite_s', False) and len(cmd) > 17 and
                     cmd[1] == 0x08 and cmd[13] == 2 and cmd[17] == 0x91)
+                # MIFARE Ultralight C AUTHENTICATE part 2 (AFh + 16 bytes): the
+                # tag leaves the handshake when it has executed it
+                self.at_auth_part2 = bool(
+                    getattr(sim, 'ulc', False) and len(cmd) == 17 and cmd[0] == 0xAF)
                 self.kind = sx.pick("kind", self.kinds)
                 self.length = sx.pick("burst", self.lengths)
                 self.mode = sx.pick("lost", list(self.modes))
@@ -55,13 +61,14 @@ class Burst(object):
             if self.mode == "cmd":
                 raise exc
             return exc
+        self.passed_after += 1
         return None
 
 
 class FixedOS(object):
-    """module attribute `os` of nfc.tag.tt3_sony in the FeliCa Lite worlds:
-    the random challenge is a fixed byte string (contents are not what this
-    property quantifies over)"""
+    """module attribute `os` of nfc.tag.tt3_sony in the FeliCa Lite worlds and
+    of nfc.tag.tt2_nxp in the Ultralight C worlds: the random challenge is a
+    fixed byte string (contents are not what this property quantifies over)"""
 
     @staticmethod
     def urandom(n):
@@ -82,6 +89,7 @@ class LiteWorld(worlds.World):
         import nfc.tag.tt3_sony
         nfc.tag.tt3_sony.os = FixedOS
         self.sx, self.auth, self.lite_s = sx, auth, lite_s
+        self.label = "lites" if lite_s else "lite"
         self.password = self.PASSWORD
         nmaxb = 13
         attr = [0x10, 4, 1, 0, nmaxb, 0, 0, 0, 0, 0x00, 0x01,
@@ -105,10 +113,120 @@ class LiteWorld(worlds.World):
         from env import tt3lite_sim
         return tt3lite_sim.target(self.lite_s)
 
+    def card_authenticated(self):
+        """the card's side of a completed authentication: Lite-S holds the
+        external authentication flag; Lite only gives out the MAC over ID"""
+        if self.lite_s:
+            return self.sim.ext_auth == 1
+        return ("read", [0x82, 0x81]) in self.sim.log
+
+
+class UlcWorld(worlds.T2World):
+    """MIFARE Ultralight C (env.tt2nxp_sim.UlcSim: 48 pages, 3DES mutual
+    authentication with real pyDes on the card side), NDEF formatted (CC
+    E1 10 12 0x, 144 bytes data area) with a short message; the card key is
+    PASSWORD.  auth=False: nothing is protected (AUTH0 30h).  auth=True:
+    pages 3.. are write protected (AUTH0 3, AUTH1 1, CC access byte 08h =
+    proprietary write access) and op_faults authenticates fault-free before
+    the burst is armed.  Everything is concrete."""
+    PASSWORD = b"0123456789abcdef"
+    NEW_PASSWORD = b"ZYXWVUTSRQPONMLK"
+    expect_class = "MifareUltralightC"
+    label = "ulc"
+
+    def __init__(self, sx, oldlen, auth):
+        from env import tt2nxp_sim
+        import nfc.tag.tt2_nxp
+        nfc.tag.tt2_nxp.os = FixedOS
+        worlds.T2World.__init__(self, sx, 144, "", [], oldlen, extra=32,
+                                symbolic_window=(0, 0), terminator=1)
+        self.auth = auth
+        self.password, self.new_password = self.PASSWORD, self.NEW_PASSWORD
+        self.uid = b"\x04\x51\x7C\xA1\xE1\xED\x25"
+        mem = self.sim.mem
+        mem[10:12] = [0, 0]              # static lock bits: nothing locked
+        if auth:
+            mem[15] = 0x08
+        self.sim = tt2nxp_sim.UlcSim(mem, self.uid, self.PASSWORD,
+                                     auth0=3 if auth else 0x30,
+                                     auth1=1 if auth else 0)
+        from env import tags
+        self.clf = tags.SimClf(self.sim)
+        self.concrete_msg = [0x80 + 9 * i for i in range(7)]
+
+    def card_authenticated(self):
+        return self.sim.authenticated is True
+
+    def card_has_key(self, password):
+        return self.sim.stored_key() == [password[i] for i in range(16)] and \
+            self.sim.key_eff == self.sim.stored_key()
+
+
+class NxpWorld(worlds.World):
+    """NTAG21x / MIFARE Ultralight EV1 (env.tt2nxp_sim.NxpHookSim), NDEF
+    formatted with a short message; PWD/PACK of the card are PASSWORD.
+    auth=True: CC access byte 08h (proprietary write access) and op_faults
+    authenticates fault-free before the burst is armed.  Everything is
+    concrete."""
+    kind = "tt2"
+    PASSWORD = b"pw0123"
+    NEW_PASSWORD = b"PW9876"
+
+    def __init__(self, sx, product, oldlen, auth, label):
+        from env import tt2nxp_sim, tags
+        self.sx, self.auth, self.label = sx, auth, label
+        self.expect_class = product
+        self.password, self.new_password = self.PASSWORD, self.NEW_PASSWORD
+        version, npages, cfg = tt2nxp_sim.PRODUCTS[product]
+        upages = cfg - 4 - (1 if cfg > 16 else 0)      # user memory pages
+        self.S = upages * 4
+        self.sim = tt2nxp_sim.NxpHookSim(
+            product, [self.PASSWORD[i] for i in range(4)],
+            [self.PASSWORD[i] for i in range(4, 6)], "timeout",
+            [0xE1, 0x10, self.S // 8, 0x08 if auth else 0x00])
+        data = [0x03, oldlen] + [(i * 7 + 3) & 0x7F for i in range(oldlen)] + [0xFE]
+        data += [(i * 5 + 1) & 0x7F for i in range(len(data), self.S)]
+        for p in range(upages):
+            self.sim.pages[4 + p] = data[4 * p:4 * p + 4]
+        self.oldlen = oldlen
+        self.old = sx.mkbytes(data[2:2 + oldlen], False)
+        self.cap = self.S - 2
+        self.clf = tags.SimClf(self.sim)
+        self.concrete_msg = [0x80 + 9 * i for i in range(7)]
+
+    def target(self):
+        from env import tt2nxp_sim
+        return tt2nxp_sim.target()
+
+    def card_authenticated(self):
+        return self.sim.authenticated is True
+
+    def card_has_key(self, password):
+        return self.sim.pwd() + self.sim.pack() == [password[i] for i in range(6)]
+
+
+FELICA_STANDARD = {"tt3fs01": (0x01, "FelicaStandard", "felica_standard"),
+                   "tt3fs20": (0x20, "FelicaStandard", "felica_standard"),
+                   "tt3fm10": (0x10, "FelicaMobile", "felica_mobile")}
+NXP_WORLDS = {"tt2ntag213": ("NTAG213", "ntag"), "tt2ulev1": ("MF0UL21", "ulev1")}
+
 
 def make_world(sx, tt, oldlen):
     if tt.startswith("tt3lite"):
         return LiteWorld(sx, tt.startswith("tt3lites"), oldlen, tt.endswith("+auth"))
+    base = tt[:-5] if tt.endswith("+auth") else tt
+    if base == "tt2ulc":
+        return UlcWorld(sx, oldlen, tt.endswith("+auth"))
+    if base in NXP_WORLDS:
+        return NxpWorld(sx, NXP_WORLDS[base][0], oldlen, tt.endswith("+auth"),
+                        NXP_WORLDS[base][1])
+    if tt in FELICA_STANDARD:
+        # FeliCa Standard / Mobile FeliCa: the Type 3 world of "tt3" with the
+        # IC code of a vendor class and the FeliCa Standard command set
+        w = worlds.T3World(sx, 4, 3, 5, oldlen, ic_code=FELICA_STANDARD[tt][0],
+                           fill=0x40, standard=True)
+        w.expect_class, w.label = FELICA_STANDARD[tt][1], FELICA_STANDARD[tt][2]
+        return w
 
     # previous tag contents are concrete here: the quantifier of this property
     # is the fault script, not the data (C01-C03 cover contents)
@@ -181,12 +299,16 @@ def op_faults(sx, tt, op, kinds, lengths):
     tag = w.fresh_tag()
     if tag is None:
         sx.check(False, "activate-returned-none:" + tt)
+    # vendor worlds: the vendor specific class is what activation returns
+    vendor = getattr(w, "expect_class", None) is not None
+    if vendor and type(tag).__name__ != w.expect_class:
+        sx.check(False, "activate-returned-other-class:" + tt)
     if getattr(w, "auth", False):
-        # FeliCa Lite / Lite-S: authenticated state, reached without faults
+        # FeliCa Lite / Lite-S, Ultralight C, NTAG21x: authenticated state,
+        # reached without faults
         if tag.authenticate(w.password) is not True:
             sx.check(False, "fault-free-authenticate-fails:" + tt)
-        sx.reach("lite_authenticated_before_faults" if not w.lite_s
-                 else "lites_authenticated_before_faults")
+        sx.reach("%s_authenticated_before_faults" % w.label)
     burst = Burst(sx, kinds, lengths)
     pre_ndef = None
     if op in ("write", "writebig", "format", "formatwipe", "reread"):
@@ -226,6 +348,13 @@ def op_faults(sx, tt, op, kinds, lengths):
             outcome = ("format", tag.format(wipe=sx.int("wipe", 0x80, 0xFF)))
         elif op == "protect":
             outcome = ("protect", tag.protect())
+        elif op == "protectpw":
+            # password protection with a new password; protect() ends with a
+            # fresh activation and authenticate(new password)
+            outcome = ("protect", tag.protect(w.new_password))
+        elif op == "authenticate":
+            # the right password, starting from the unauthenticated state
+            outcome = ("authenticate", tag.authenticate(w.password))
         elif op == "dump":
             outcome = ("dump", len(tag.dump()) > 0)
         else:
@@ -235,7 +364,14 @@ def op_faults(sx, tt, op, kinds, lengths):
     w.sim.hook = None
     who = "%s:%s" % (tt, op)
     check_sends(sx, w, who)
+    if tt in FELICA_STANDARD:
+        if any(e[0] == "request_response" for e in w.sim.log):
+            sx.reach(w.label + "_request_response")
+        if any(e[0] == "search_service_code" for e in w.sim.log):
+            sx.reach(w.label + "_dump_walks_services")
     if not burst.started:
+        if op in ("authenticate", "protectpw") and outcome[1] is not True:
+            sx.check(False, "fault-free-%s-fails:%s" % (op, tt))
         sx.reach("no_fault")
         return ["clean", op]
     sx.reach("fault:" + burst.kind)
@@ -251,6 +387,9 @@ def op_faults(sx, tt, op, kinds, lengths):
         sx.check(ok, "errno-does-not-match-error-kind:%s:%s" % (who, burst.kind))
         if absorbed_expected and not burst.at_sector_select:
             sx.check(False, not_absorbed_label(who, burst))
+        if vendor and op == "present":
+            # vendor worlds: the presence check is documented as True/False
+            sx.check(False, "presence-check-raised-tag-command-error:" + who)
         silent = burst.at_sector_select and burst.kind == "timeout"
         # (a lost second SECTOR SELECT packet is taken for its passive
         # acknowledgement: reader and tag disagree about the sector from
@@ -287,10 +426,41 @@ def op_faults(sx, tt, op, kinds, lengths):
     elif op == "present":
         if outcome[1] is not True:
             sx.reach("present_false")
+            if burst.passed_after == 0:
+                sx.reach("present_false_under_persistent_error")
             if absorbed_expected:
                 sx.check(False, not_absorbed_label(who, burst))
         else:
+            if burst.passed_after == 0:
+                # the error persisted to the end of the operation: no exchange
+                # was answered since the burst began
+                sx.check(False, "present-true-although-every-exchange-failed:%s:%s"
+                         % (who, burst.kind))
             sx.reach("absorbed")
+    elif op in ("authenticate", "protectpw") or (vendor and op == "protect"):
+        # documented results: True / False (None means "not supported", which
+        # is not the case for these classes); a burst shorter than the
+        # attempts of one command does not change the result
+        res = outcome[1]
+        if res is not True and res is not False:
+            sx.check(False, "result-neither-true-nor-false:" + who)
+        if res is True:
+            if op != "protect":
+                if not w.card_authenticated():
+                    sx.check(False, "true-result-but-card-not-authenticated:" + who)
+                if tag.is_authenticated is not True:
+                    sx.check(False, "true-result-but-is_authenticated-false:" + who)
+            if op == "protectpw" and not w.card_has_key(w.new_password):
+                sx.check(False, "protect-true-but-card-holds-other-key:" + who)
+            sx.reach("absorbed")
+            if op == "authenticate":
+                sx.reach(w.label + "_authenticated")
+            elif op == "protectpw":
+                sx.reach(w.label + "_protected_with_password")
+        else:
+            sx.reach("documented_false_or_none")
+            if absorbed_expected:
+                sx.check(False, not_absorbed_label(who, burst))
     else:
         sx.reach("absorbed" if outcome[1] is True else "documented_false_or_none")
     return ["done", op, burst.kind]
@@ -301,6 +471,10 @@ def not_absorbed_label(who, burst):
     if burst.at_mac_write and burst.mode == "rsp":
         # the executed Write with MAC whose response was lost: a site of its own
         label += ":mac-write-response-lost"
+    if burst.at_auth_part2 and burst.mode == "rsp":
+        # Ultralight C: the executed second part of AUTHENTICATE whose
+        # response was lost: a site of its own
+        label += ":auth-part2-response-lost"
     return label
 
 
@@ -395,6 +569,53 @@ def check_sends(sx, w, who):
             sx.check(False, "unbounded-retries:" + who)
 
 
+def vendor_partitions(tier):
+    """FeliCa Standard / Mobile, MIFARE Ultralight C, NTAG21x, Ultralight EV1
+    and authenticate() itself on FeliCa Lite / Lite-S.  The presence check of
+    FeliCa Standard makes up to six attempts (3 x Request Response, 3 x
+    Polling): bursts of 6 and 7 are the persistent error there."""
+    all_kinds = ("timeout", "transmission", "protocol")
+    T, X, P = ("timeout",), ("transmission",), ("protocol",)
+    if tier == "quick":
+        sel = [("tt3fs01", "present", all_kinds), ("tt3fs01", "read", T),
+               ("tt3fs01", "write", X), ("tt3fs01", "dump", P),
+               ("tt3fs20", "present", P), ("tt3fm10", "present", X),
+               ("tt3fm10", "read", P),
+               ("tt2ulc", "authenticate", all_kinds), ("tt2ulc", "protectpw", T + X),
+               ("tt2ulc", "read", T), ("tt2ulc", "write", P), ("tt2ulc", "present", X),
+               ("tt2ulc+auth", "write", X),
+               ("tt2ntag213", "authenticate", all_kinds), ("tt2ntag213", "protectpw", T + P),
+               ("tt2ntag213", "read", X), ("tt2ntag213", "write", T),
+               ("tt2ntag213", "present", P),
+               ("tt2ulev1", "authenticate", T), ("tt2ulev1", "protectpw", X),
+               ("tt3lite", "authenticate", all_kinds),
+               ("tt3lites", "authenticate", all_kinds)]
+    else:
+        ops = {"tt3fs01": ["present", "read", "reread", "write", "dump"],
+               "tt3fs20": ["present", "read", "write", "dump"],
+               "tt3fm10": ["present", "read", "write", "dump"],
+               "tt2ulc": ["read", "reread", "write", "present", "dump", "protect",
+                          "protectpw", "authenticate"],
+               "tt2ulc+auth": ["read", "write", "present"],
+               "tt2ntag213": ["read", "reread", "write", "present", "dump", "protect",
+                              "protectpw", "authenticate"],
+               "tt2ntag213+auth": ["read", "write"],
+               "tt2ulev1": ["read", "write", "present", "dump", "protect",
+                            "protectpw", "authenticate"],
+               "tt2ulev1+auth": ["write"],
+               "tt3lite": ["authenticate"], "tt3lites": ["authenticate"]}
+        sel = [(tt, op, all_kinds) for tt, oplist in ops.items() for op in oplist]
+    parts = []
+    for tt, op, kinds in sel:
+        for kind in kinds:
+            lengths = [1, 2, 3] if tier == "quick" else [1, 2, 3, 4]
+            if tt in FELICA_STANDARD and op == "present":
+                lengths = lengths + [6, 7]
+            parts.append(dict(name="%s:%s:%s" % (tt, op, kind), fn="op_faults",
+                              params=dict(tt=tt, op=op, kinds=[kind], lengths=lengths)))
+    return parts
+
+
 def partitions(tier):
     parts = []
     ops = {"tt2": ["read", "reread", "write", "present", "format", "protect", "dump"],
@@ -436,6 +657,7 @@ def partitions(tier):
             lengths = [1, 2, 3] if tier == "quick" else [1, 2, 3, 4]
             parts.append(dict(name="%s:%s:%s" % (tt, op, kind), fn="op_faults",
                               params=dict(tt=tt, op=op, kinds=[kind], lengths=lengths)))
+    parts += vendor_partitions(tier)
     for later in (["present", "read"], ["ndef", "dump"], ["read", "write", "present"]):
         parts.append(dict(name="tt2:nak-then-gone:" + "+".join(later), fn="nak_then_gone",
                           params=dict(tt="tt2", later=later)))
@@ -449,11 +671,26 @@ def partitions(tier):
 MUST_REACH = ["no_fault", "fault:timeout", "fault:transmission", "fault:protocol",
               "absorbed", "ended_in_tag_command_error", "activation_with_fault",
               "repeated_after_error", "lite_authenticated_before_faults",
-              "lites_authenticated_before_faults"]
+              "lites_authenticated_before_faults",
+              # vendor worlds (vendor_partitions): the vendor specific code ran
+              "felica_standard_request_response", "felica_mobile_request_response",
+              "felica_standard_dump_walks_services",
+              "present_false_under_persistent_error",
+              "ulc_authenticated", "ulc_protected_with_password",
+              "ulc_authenticated_before_faults",
+              "ntag_authenticated", "ntag_protected_with_password",
+              "ulev1_authenticated", "ulev1_protected_with_password",
+              "lite_authenticated", "lites_authenticated"]
 BOUNDS = {"quick": "one burst (length 1..3, kind timeout/transmission/protocol, command or response lost) at every command position of read/write/presence/format/protect/dump on one small world per tag type; after a read/write that ended in TagCommandError or None the operation is repeated fault-free through the same tag object (Type 1/2/3) and must give the fault-free result",
           "thorough": "burst lengths 1..4"}
 LITE_BOUNDS = "; FeliCa Lite / Lite-S vendor classes (env.tt3lite_sim, NDEF formatted, concrete key and contents): quick = authenticated Lite read/write x all kinds, authenticated Lite-S read x all kinds and write x timeout, unauthenticated Lite read/write and Lite-S read for some kinds; thorough = read/reread/write/present x all kinds on all four (unauthenticated, authenticated fault-free before the burst)"
-BOUNDS = dict((k, v + LITE_BOUNDS) for k, v in BOUNDS.items())
-OUTSIDE = ["two separate bursts in one operation", "repeating an operation after an error on a Type 4 Tag (ISO-DEP state after a failed exchange: known finding of C12)", "vendor specific tag classes other than Topaz/Topaz-512 and FeliCa Lite / Lite-S", "faults during authenticate() itself (C20 covers substituted responses, not lost ones)"]
+VENDOR_BOUNDS = {
+    "quick": "; other vendor classes (concrete keys and contents, same burst model): FeliCa Standard IC 01h (env.tags.Tt3Sim standard=True: Request Response, Request System Code, Search Service Code, Request Service; one system 12FCh, area 0, services 0009h/000Bh) presence check x all kinds with bursts 1..3 and 6, 7 (3 x Request Response + 3 x Polling = persistent error, result must be False), read/write/dump for one kind each, IC 20h and Mobile FeliCa IC 10h presence check and read for one kind; MIFARE Ultralight C (env.tt2nxp_sim.UlcSim, 3DES handshake with real pyDes) authenticate(right password) x all kinds, protect(new password) x 2 kinds, read/write/present for one kind, NDEF write on a write-protected tag authenticated before the burst; NTAG213 (env.tt2nxp_sim.NxpHookSim) authenticate x all kinds, protect(new password) x 2 kinds, read/write/present one kind; Ultralight EV1 MF0UL21 authenticate, protect(new password) one kind; FeliCa Lite and Lite-S authenticate(right password) from the unauthenticated state x all kinds.  authenticate/protect with password: True and the card agrees (authenticated state, stored key) when the burst is shorter than three attempts, otherwise True, False or TagCommandError with the matching reason",
+    "thorough": "; other vendor classes: FeliCa Standard IC 01h/20h and Mobile FeliCa IC 10h present/read/write/dump x all kinds (presence check with bursts 1..4, 6, 7); Ultralight C, NTAG213 and Ultralight EV1 MF0UL21 read/write/present/dump/protect (lock bits)/protect(new password)/authenticate x all kinds, NDEF read/write on write-protected tags authenticated before the burst; FeliCa Lite / Lite-S authenticate x all kinds"}
+BOUNDS = dict((k, v + LITE_BOUNDS + VENDOR_BOUNDS[k]) for k, v in BOUNDS.items())
+OUTSIDE = ["two separate bursts in one operation", "repeating an operation after an error on a Type 4 Tag (ISO-DEP state after a failed exchange: known finding of C12)", "vendor specific tag classes other than Topaz/Topaz-512, FeliCa Lite / Lite-S, FeliCa Standard / Mobile, MIFARE Ultralight C, NTAG21x (NTAG213) and Ultralight EV1 (MF0UL21): NTAG203, NTAG I2C, FeliCa Plug, plain MIFARE Ultralight, the other members of the NTAG21x / EV1 families (same code, other page numbers)", "authenticate() with a wrong password under faults; FeliCa Lite / Lite-S protect(); FeliCa Standard cards with more than one system or with nested areas, and their keyed services; access restrictions of NTAG21x / EV1 (AUTH0/PROT are not enforced by env.tt2nxp_sim.NxpSim); a frame that reaches the tag damaged (NAK, tag back in IDLE state)"]
 ASSUMPTIONS = ["a failing exchange either never reaches the tag or is executed with the response lost",
-               "FeliCa Lite / Lite-S worlds: env.tt3lite_sim.LiteHookSim with real pyDes on both sides (key, challenge from a fixed os.urandom stub, contents and the written message are concrete); the tag counts executed writes with MAC (WCNT)"]
+               "FeliCa Lite / Lite-S worlds: env.tt3lite_sim.LiteHookSim with real pyDes on both sides (key, challenge from a fixed os.urandom stub, contents and the written message are concrete); the tag counts executed writes with MAC (WCNT)",
+               "FeliCa Standard / Mobile worlds: env.tags.Tt3Sim with standard=True answers Request Response (mode 0), Request System Code (12FCh), Search Service Code (area 0000h-FFFEh, services 0009h, 000Bh) and Request Service; the IC code in PMm selects the nfcpy class",
+               "Ultralight C worlds: env.tt2nxp_sim.UlcSim (MF0ICU2 memory map, key pages write-only, AUTH0/AUTH1/key effective from the next activation, 3DES mutual authentication computed with pyDes on the card side, a new RndB for every `1A 00`, `AF` outside a handshake is an unknown command, NAK = mute until sensed again); os.urandom of nfc.tag.tt2_nxp is a fixed stub; key, contents and message are concrete",
+               "NTAG213 / MF0UL21 worlds: env.tt2nxp_sim.NxpHookSim (PWD_AUTH answered with PACK in every state, PWD/PACK read back as zero, NAK surfaces as time-out and leaves the tag mute until sensed again)"]
